@@ -100,3 +100,16 @@ From GB Require Import Model.Strict Proofs.TemplateSoundProofs Proofs.StrictProo
 Theorem c20_strict_sound : forall s t, st_parse s = Some t -> StrictLang t s.
 Proof. exact st_parse_sound. Qed.
 Print Assumptions c20_strict_sound.
+
+From GB Require Import Proofs.StrictCompleteProofs.
+(* conversely every string of the strict language is accepted with exactly the structure it derives from - both spellings
+   of a variable, every verb form, the root with and without a verb: the strict parser accepts EXACTLY the language *)
+Theorem c20_strict_exact : forall s t, st_parse s = Some t <-> StrictLang t s.
+Proof. exact st_parse_exact. Qed.
+Print Assumptions c20_strict_exact.
+
+(* the model's recursion fuel never decides: with any larger fuel the descent gives the same result, so a None of the
+   model is a refusal of the (unboundedly recursive) parser *)
+Theorem c20_strict_fuel : forall f1 f2 toks, (length toks < f1)%nat -> (length toks < f2)%nat -> st_segments f1 toks = st_segments f2 toks.
+Proof. exact fuel_irrelevant. Qed.
+Print Assumptions c20_strict_fuel.
